@@ -725,10 +725,7 @@ def build_rtl_layer(calibration_outputs, model_config, submodel_index,
     passthrough_name = '{}_{}'.format(RTL_INPUT_NAME, feature_config.name)
     calibration_output = tf.identity(
         calibration_outputs[feature_config.name], name=passthrough_name)
-    if (feature_config.monotonicity in [1, -1, 'increasing', 'decreasing'] or
-        (feature_config.num_buckets and
-         isinstance(feature_config.monotonicity, list) and
-         feature_config.monotonicity)):
+    if _monotonicities_from_feature_configs([feature_config])[0]:
       rtl_inputs['increasing'].append(calibration_output)
     else:
       rtl_inputs['unconstrained'].append(calibration_output)
